@@ -9,6 +9,9 @@ PDup3     == [ea |-> <<1,2,1>>, eb |-> <<1,1,1>>, la |-> <<2,1,2>>, lb |-> <<0,0
 P1 == {PDistinct}
 P2 == {PDistinct, PDup}
 P4 == {PDistinct, PDup, PDup2, PDup3}
+(* ---- length patterns <<a,b,c,d>>: len(e,l,v) = 1 + (a*e + b*l + c*v + d) % MaxLen *)
+LP3 == {<<0,0,0,1>>, <<1,1,1,0>>, <<1,2,0,1>>}
+LP6 == {<<0,0,0,1>>, <<1,0,0,0>>, <<0,1,0,0>>, <<1,1,1,0>>, <<1,2,0,1>>, <<2,1,1,0>>}
 (* ---- grids *)
 D221 == {<<2,2,1>>}
 D222 == {<<2,2,2>>}
